@@ -399,7 +399,10 @@ func ops() []op {
 	}})
 	for _, enc := range []mice.Encoding{mice.Draft02Encoding, mice.Draft03Encoding} {
 		enc := enc
-		out = append(out, op{"mice.Encode/" + string(enc), func(o *mon.Rand) any { return bytes.Repeat([]byte("0123456789"), 33) }, func(in any, w io.Writer) error {
+		out = append(out, op{"mice.Encode/" + string(enc), func(o *mon.Rand) any {
+			// the same 330 payload bytes every time, in a slice whose spare capacity holds bytes that differ from build to build
+			return append(bytes.Repeat([]byte("0123456789"), 33), o.Bytes(64+o.Intn(200))...)[:330]
+		}, func(in any, w io.Writer) error {
 			d, err := enc.Encode(w, in.([]byte), 100)
 			if err == nil {
 				_, err = io.WriteString(w, d)
